@@ -123,6 +123,7 @@ static void ref_set(const Ctx *x, Ref *r) {            /* strset_s wcsset_s strn
     int hask = strstr(f->sig, " k ") != NULL;
     if (c->c == 0 || p < 0) { r->verdict = V_ANY; return; }
     if (f->w == 1 && c->c > 255) { r_fail(r, ESLEMAX_); return; }
+    if (f->w == 1 && c->c < 0) { r->verdict = V_ANY; return; }      /* 'value shall not be greater than 255': a negative value (a plain char above 0x7f) is neither clearly allowed nor clearly a violation */
     if (hask && c->k > n) { r_fail(r, ESNOSPC_); return; }
     long m = hask && c->k < p ? c->k : p;
     r_ok_str(r);
